@@ -35,7 +35,12 @@ RULE = ("real stores (1-4 fractions, sealed + at most one active, optional resta
         "64 KiB so that chunks shrink, right/wrong/unknown fraction hints, repeated IDs, the same ID in two fractions; "
         "scenario kind 'recent' (timestamps of the last 20 minutes, the only wall-clock dependent inputs) so that the "
         "occupancy-map window holds the documents, with the regression class mid-above-int64 (stored IDs + an ID whose "
-        "MID >= 2^63); thorough: requests of 20k and 100k IDs; plus unit-level classes on generated inputs: calcChunkSize, "
+        "MID >= 2^63); scenario kind 'chunked' (3-4 non-empty fractions, the last one active, disjoint or identical time ranges) with "
+        "requests of 1100-2200 IDs loaded in >= 2 chunks whose first 1000 IDs ask only some fractions (a middle one left "
+        "out, routed by time range or by hints) and whose later chunks ask the others; fault injection: the active "
+        "fraction's Fetch panics on entry (schedule point fetch.start) and a sealed fraction's docs file is cut down "
+        "between stop and start - the request must end with an error, never report such a fraction's stored documents "
+        "as not found with a nil error; thorough: requests of 20k and 100k IDs; plus unit-level classes on generated inputs: calcChunkSize, "
         "PackDocPos/Unpack (offsets around 2^30, block indices up to 2^32-1), GroupDocsOffsets, IndexFetch over a real "
         "DocsReader on files of 1-4 packed/compressed blocks (permuted block table, nil entries, block index past the "
         "table), activeFetchIndex.GetDocPos (snapshot of k blocks, positions in blocks < k, = k, > k), getDocPosByLIDs "
